@@ -10,7 +10,10 @@ from vx.extract import LostAnchor, Source, REPO
 from vx.runner import run_verus, classify_msg
 from vx import kani as kani_mod
 
-BUILD = os.path.join(VERIF, "build")
+BUILD = os.environ.get("VERIF_BUILD_DIR") or os.path.join(VERIF, "build")
+EVID = os.environ.get("VERIF_EVIDENCE_DIR") or os.path.join(VERIF, "evidence")
+REPLAYS = os.environ.get("VERIF_REPLAY_DIR") or os.path.join(VERIF, "replays")
+LOAD_FAILURES = {}
 
 
 def load_units():
@@ -25,6 +28,7 @@ def load_units():
             m = importlib.import_module("specs." + name)
         except Exception as e:
             sys.stderr.write("WARNING: spec module %s failed to load: %r\n" % (name, e))
+            LOAD_FAILURES[name] = repr(e)
             continue
         units[name] = m.UNIT
     return units, specs
@@ -150,12 +154,16 @@ def run_unit(unit, drop_hints=(), suffix=""):
             fail["clause"] = "claim:" + (c[5] if len(c) > 5 else ek)
             fail["props"] = c[4].split(",") if len(c) > 4 and c[4] else None
             fail["clause_text"] = c[2]
-        if kind == "assertion" and ek == "hint":
+        if kind == "assertion" and ek and ek.startswith("hint"):
+            fail["hint_tag"] = ek
             oc.hint_failures.setdefault(q, []).append(fail)
             continue
         if kind in ("invariant-end", "invariant-entry", "decreases", "termination", "invariant"):
             # invariant / measure text is ours, but what it protects is the loop body of the real code
             fail["clause"] = kind
+        if asm.dropped_hints.get(q):
+            oc.undecided[q] = "%d proof hint(s) could not be placed (anchored statement no longer in the body) and the function does not verify without: %s" % (asm.dropped_hints[q], fail["msg"][:120])
+            continue
         oc.failures.setdefault(q, []).append(fail)
     if res.compile_error and (real_compile_error or not res.functions):
         oc.status = "compile-error"
@@ -212,23 +220,38 @@ def check_property(prop, tier, units, specs, rebaseline=False, only_unit=None, s
     if not unames:
         print("UNDECIDED property=%s reason=no-unit-claims-this-property" % prop)
         return 2
+    dev = getattr(specs, "DEV_UNITS", set())
+    bad = [u for u in LOAD_FAILURES if u not in dev]
+    if bad:
+        print("UNDECIDED property=%s reason=spec-module-failed-to-load %s" % (prop, "; ".join("%s: %s" % (u, LOAD_FAILURES[u][:300]) for u in bad)))
+        return 2
     with ThreadPoolExecutor(max_workers=min(4, len(unames))) as ex:
         outcomes = list(ex.map(lambda n: run_unit(units[n]), unames))
-    # hint failures: re-run the unit with the failing functions' hints removed
+    # hint failures: re-run the unit with the FAILING hints (only those) of the affected functions removed; a hint that depended on a removed
+    # one may fail in turn, hence a few rounds.  Verus assumes a failed assertion afterwards, so results below a failed hint are not trusted.
     for i, oc in enumerate(outcomes):
         if oc.status == "ok" and oc.hint_failures:
-            oc2 = run_unit(oc.unit, drop_hints=tuple(oc.hint_failures.keys()), suffix="_nohints")
-            for q in oc.hint_failures:
+            drop = {}
+            oc2 = oc
+            for rnd in range(4):
+                for q, fl in oc2.hint_failures.items():
+                    drop.setdefault(q, set()).update(f_.get("hint_tag", "hint") for f_ in fl)
+                oc2 = run_unit(oc.unit, drop_hints={q: set(t) for q, t in drop.items()}, suffix="_nohints")
+                if oc2.status != "ok" or not oc2.hint_failures:
+                    break
+            for q in drop:
                 if oc2.status != "ok":
-                    oc.undecided[q] = "proof hint failed and the hint-free re-run did not complete (%s)" % oc2.status
+                    oc.undecided[q] = "proof hint failed and the re-run without it did not complete (%s)" % oc2.status
+                elif q in oc2.hint_failures:
+                    oc.undecided[q] = "proof hints keep failing after %d rounds of removal" % 4
                 elif q in oc2.failures:
                     oc.failures.setdefault(q, [])
                     have = set(obligation_id(q, f) for f in oc.failures[q])
                     for f in oc2.failures[q]:
                         if obligation_id(q, f) not in have:
                             oc.failures[q].append(f)
-                elif q in oc2.undecided or q in oc2.hint_failures:
-                    oc.undecided[q] = "proof hint failed; undecided without it"
+                elif q in oc2.undecided:
+                    oc.undecided[q] = "proof hint failed; undecided without it (%s)" % oc2.undecided[q][:160]
                 else:
                     lines.append("NOTE property=%s stale proof hint in %s (function verifies without it)" % (prop, q))
     known = load_known()
@@ -320,8 +343,27 @@ def check_property(prop, tier, units, specs, rebaseline=False, only_unit=None, s
             for c in f.ensures[:2]:
                 if (c.props is None or prop in c.props) and len(samples) < 8:
                     samples.append(dict(function=inv["qname"], obligation="ensures", clause=norm(c.text)[:400], source="%s:%d-%d" % (inv["file"], inv["lines"][0], inv["lines"][1])))
-    # thorough tier: kani pairings and bounded stand-ins
+    # thorough tier: (a) solver-stability re-runs (other z3 seeds, doubled resource limit), (b) sensitivity self-test on the
+    # committed seeded changes, (c) kani pairings and bounded stand-ins
     bounded = []
+    stability = []
+    selftest_res = []
+    if tier == "thorough" and not os.environ.get("VERIF_NO_SELFTEST"):
+        for oc in outcomes:
+            if oc.status != "ok" or not oc.path:
+                continue
+            for k in (1, 2):
+                sd = seed * 7 + k
+                res2 = run_verus(oc.path, rlimit=80, threads=int(os.environ.get("VERIF_THREADS", "8")), extra=["--smt-option", "smt.random_seed=%d" % sd])
+                flipped = sorted(n for n, v in res2.functions.items() if not v.get("success") and oc.res.functions.get(n, {}).get("success"))
+                stability.append(dict(unit=oc.unit.name, z3_random_seed=sd, rlimit=80, verified=res2.verified, errors=res2.failed,
+                                      same_verdicts=(not flipped and res2.verified == oc.res.verified), flipped=flipped[:10], wall_s=round(res2.wall, 1)))
+                if flipped:
+                    lines.append("NOTE property=%s unstable under z3 seed %d in unit %s: %s" % (prop, sd, oc.unit.name, ", ".join(flipped[:5])))
+        selftest_res = selftest(prop)
+        for st in selftest_res:
+            if st["expected"] == "DETECTED" and st["got"] != "DETECTED":
+                lines.append("NOTE property=%s self-test: seeded change %s expected DETECTED, got %s" % (prop, st["change"], st["got"]))
     if tier == "thorough":
         try:
             kres = kani_mod.run_for_property(prop, seed=seed)
@@ -334,7 +376,7 @@ def check_property(prop, tier, units, specs, rebaseline=False, only_unit=None, s
                 violations.append(("kani", k["harness"], "kani::%s" % k["harness"], dict(kind="kani", msg=k.get("detail", ""), rendered=k.get("output", "")[-3000:], text=k.get("playback", ""), src_file=k.get("file"), src_line=None, labels=[], origin="kani")))
     # ---------------- verdict
     rc = 0
-    os.makedirs(os.path.join(VERIF, "replays"), exist_ok=True)
+    os.makedirs(REPLAYS, exist_ok=True)
     for hit, oid in known_hits:
         lines.append("KNOWN-FINDING: property=%s %s [%s]" % (prop, hit.get("what", ""), oid))
     seen = set()
@@ -343,7 +385,7 @@ def check_property(prop, tier, units, specs, rebaseline=False, only_unit=None, s
             continue
         seen.add(oid)
         h = hashlib.sha1(oid.encode()).hexdigest()[:10]
-        rp = os.path.join(VERIF, "replays", "%s-%s.json" % (prop, h))
+        rp = os.path.join(REPLAYS, "%s-%s.json" % (prop, h))
         replay = dict(property=prop, unit=uname, function=q, obligation=oid, kind=fl["kind"], verifier_message=fl["msg"],
                       source_file=fl.get("src_file"), source_line=fl.get("src_line"), source_text=fl.get("text"),
                       clause_text=fl.get("clause_text"), verifier_output=fl.get("rendered"), labels=fl.get("labels"),
@@ -374,18 +416,53 @@ def check_property(prop, tier, units, specs, rebaseline=False, only_unit=None, s
                             checker_cmd="verus build/<unit>.rs --output-json --time-expanded --error-format=json --multiple-errors 40  (units: %s; files regenerated from %s on this run)" % (",".join(unames), REPO),
                             trusted_base=trusted, samples=samples or [dict(note="no obligations")],
                             explanation=meta.get("scope", ""), functions_under_contract=fn_reports,
-                            rewrites=sorted(set(rewrites)), unverified=unverified_notes, bounded=bounded,
+                            rewrites=sorted(set(rewrites)), unverified=unverified_notes, bounded=bounded, solver_stability=stability, sensitivity_selftest=selftest_res,
                             solver_s=round(solver_us / 1e6, 3), backends=["verus 0.2026.09.13 / z3"] + (["kani 0.68 / cbmc"] if bounded else []),
                             known_findings=[dict(what=h.get("what"), obligation=o) for h, o in known_hits],
                             undecided=undecided, exhaustive=False),
               assumptions=meta.get("assumptions", []) + ["machine arithmetic is checked as fixed-width (overflow = failed obligation), not treated as mathematical"],
               wall_s=round(wall, 2), violations=len(seen))
-    os.makedirs(os.path.join(VERIF, "evidence"), exist_ok=True)
-    json.dump(ev, open(os.path.join(VERIF, "evidence", prop + ".json"), "w"), indent=1)
+    os.makedirs(EVID, exist_ok=True)
+    json.dump(ev, open(os.path.join(EVID, prop + ".json"), "w"), indent=1)
     for l in lines:
         print(l)
     sys.stdout.flush()
     return rc
+
+
+def selftest(prop):
+    """thorough tier: apply every committed seeded change of this property to a scratch copy of the tree under check and run the
+    quick check on it (outputs redirected into the scratch directory); reports expected (recorded) vs obtained verdict"""
+    import shutil
+    S = os.path.join(VERIF, "seeded")
+    out = []
+    if not os.path.isdir(S):
+        return out
+    for d in sorted(os.listdir(S)):
+        mp = os.path.join(S, d, "meta.json")
+        if not os.path.exists(mp):
+            continue
+        meta = json.load(open(mp))
+        if meta.get("property") != prop:
+            continue
+        tree = "/var/tmp/rdp-selftest.%d" % os.getpid()
+        shutil.rmtree(tree, ignore_errors=True)
+        try:
+            subprocess.check_call(["rsync", "-a", "--exclude", "target", "--exclude", ".git", REPO + "/", tree + "/"])
+            subprocess.check_call(["git", "init", "-q"], cwd=tree)
+            r = subprocess.run(["git", "apply", os.path.join(S, d, "patch.diff")], cwd=tree, stdout=subprocess.PIPE, stderr=subprocess.STDOUT)
+            if r.returncode != 0:
+                out.append(dict(change=d, expected=meta.get("check_result", {}).get("verdict"), got="PATCH-DOES-NOT-APPLY", detail=r.stdout.decode()[:200]))
+                continue
+            env = dict(os.environ, VERIF_REPO=tree, VERIF_TIER="quick", VERIF_EVIDENCE_DIR=tree + "/.verif/evidence", VERIF_BUILD_DIR=tree + "/.verif/build", VERIF_REPLAY_DIR=tree + "/.verif/replays")
+            c = subprocess.run([sys.executable, "-m", "vx.check", prop, "--tier", "quick"], cwd=VERIF, env=env, stdout=subprocess.PIPE, stderr=subprocess.STDOUT)
+            txt = c.stdout.decode("utf-8", "replace")
+            got = {0: "MISSED", 1: "DETECTED", 2: "UNDECIDED"}.get(c.returncode, "rc=%d" % c.returncode)
+            obl = [l.split("obligation=")[1].split(" ")[0] for l in txt.splitlines() if l.startswith("VIOLATION") and "obligation=" in l]
+            out.append(dict(change=d, expected=meta.get("check_result", {}).get("verdict"), got=got, obligations=obl[:4], summary=meta.get("summary", "")[:200]))
+        finally:
+            shutil.rmtree(tree, ignore_errors=True)
+    return out
 
 
 def main():
